@@ -410,14 +410,46 @@ def provider_layer_cases(rng, thorough):
     """a provider's output as one layer of a three-layer merge (evalgen.provider_layer_worlds): every plain reference of
     the root is claimed to denote the value at its path in the final merged value"""
     out = []
+    pyv = {"O1": {"foo": {"j": 2}, "host": "db.internal", "options": {"sslmode": "require"}},
+           "O2": {"foo": {"k": 1}, "options": {"timeout": 3}}, "O3": {"deep": "only-here", "foo": {"z": True}},
+           "S": "str", "N": None, "A": ["el"], "PO": {"options": {"timeout": 5}, "password": "pw"}, "PS": "text",
+           "PA": ["p", "q"], "PE": {"region": "x"}, "PF": {"foo": {"k": 7}}, "-": None}
+
+    def has(v, path):
+        for kind, name in path:
+            if not isinstance(v, dict) or name not in v:
+                return False
+            v = v[name]
+        return True
     for i, w in enumerate(G.provider_layer_worlds(thorough)):
-        c = dict(w, show=True)
-        claims = []
+        ks = w["matrix"].split(":", 1)[1].split("/")[:3]
+        view = {"x": merged_view([pyv[k] for k in reversed(ks) if k != "-"])}
+        # a reference to a path that does not exist is an error, and claims are only judged on runs without diagnostics:
+        # keep the reads whose path the plain fold has (a wrong guess only costs the claims of that case)
+        def path_of(e):
+            if e[0] == "sym":
+                return e[1]
+            if e[0] == "tojson":
+                return path_of(e[1])
+            if e[0] == "interp":
+                return [p for _, p in e[1] if p][0] if any(p for _, p in e[1]) else None
+            return None
+        vals = []
         for k, e in w["def"]["values"]:
+            if k == "x" or not (k.startswith("r_") or k.startswith("t_")):
+                vals.append((k, e))
+                continue
+            pth = path_of(e)
+            if pth is not None and has(view, pth):
+                vals.append((k, e))
+        c = dict(w, show=True)
+        c["def"] = {"imports": w["def"]["imports"], "values": vals}
+        claims = []
+        for k, e in vals:
             if e[0] == "sym" and k.startswith("r_"):
                 claims.append("(path %s %s)" % (G.sx(k), G.w_path(e[1])))
         c["claims"] = claims
-        c["def2"] = {"imports": w["def"]["imports"], "values": shuffle_keys(rng.fork("pl%d" % i), w["def"]["values"])}
+        c["def2"] = {"imports": w["def"]["imports"], "values": shuffle_keys(rng.fork("pl%d" % i), vals)}
         out.append(c)
     return out
 
